@@ -171,6 +171,49 @@ theorem frozen_excludes_writes {s s' : State} {o : Out} (op : Op) (hf : 0 < s.fr
     (hs : step s op = some (s', o)) : s'.bytes = s.bytes :=
   step_bytes_frozen op hf hs
 
+/-- A mutating call performs its change — when it is issued or when it resumes after the
+`lockMutatingData` wait — only in a state with `frozenDescriptorsCount = 0`: the loop test is
+re-evaluated after every wake-up, so if the file has been frozen again between the
+`close(unfreezeWakeup)` and the moment the woken call re-takes the lock (a second upload or
+frozen open got in first), the step parks the call again and changes nothing.  Holds in every
+state and for all interleavings of freezes, unfreezes and wake-ups. -/
+theorem mutator_runs_only_unfrozen {s s' : State} {o : Out} (op : Op)
+    (hop : (∃ t mop, op = .mbegin t mop) ∨ (∃ t, op = .mwake t))
+    (hs : step s op = some (s', o)) :
+    (o ≠ .parked → s.frozen = 0) ∧
+    (0 < s.frozen → o = .parked ∧ s'.bytes = s.bytes ∧ s'.frozen = s.frozen ∧ s'.refs = s.refs) := by
+  have key : 0 < s.frozen → o = .parked ∧ s'.bytes = s.bytes ∧ s'.frozen = s.frozen ∧ s'.refs = s.refs := by
+    intro hf
+    unfold step at hs
+    split at hs
+    · cases hs
+    · rcases hop with ⟨t, mop, rfl⟩ | ⟨t, rfl⟩
+      · simp only at hs
+        split at hs
+        · rw [mutBody_frozen t mop hf] at hs; cases hs; exact ⟨rfl, rfl, rfl, rfl⟩
+        · cases hs
+      · simp only at hs
+        split at hs
+        · rename_i mop _
+          rw [mutBody_frozen t mop hf] at hs; cases hs; exact ⟨rfl, rfl, rfl, rfl⟩
+        · cases hs
+  refine ⟨fun hne => ?_, key⟩
+  cases Nat.eq_zero_or_pos s.frozen with
+  | inl h0 => exact h0
+  | inr hpos => exact absurd (key hpos).1 hne
+
+/-- The interleaving [unfreeze → a second upload freezes the file again → the woken writer
+runs]: the writer parks again and upload 2 stores what it digested. -/
+example :
+    (run (init true true false 0 ⟨false, true⟩)
+      [.fire 0, .mbegin 1 (.write 0 [1, 2, 3]), .ubegin 2 true (some 0) 0, .uwake 2 true, .udigest 2,
+       .mbegin 3 (.write 0 [9, 9]), .putDone 2 true, .ubegin 4 true (some 0) 0, .uwake 4 true, .udigest 4,
+       .mwake 3, .putDone 4 true, .mwake 3]).2
+      = [.st .ok, .wrote 3 .ok, .parked, .opened, .putting (0, [1, 2, 3]), .parked,
+         .digest (some (0, [1, 2, 3])), .parked, .opened, .putting (0, [1, 2, 3]), .parked,
+         .digest (some (0, [1, 2, 3])), .wrote 2 .ok] := by
+  decide
+
 example : (step ({ init true true false 0 ⟨false, true⟩ with frozen := 1 }) (.mbegin 7 (.write 0 [1]))).map (·.2)
     = some .parked := by decide
 
